@@ -909,14 +909,14 @@ pub fn run(ctx: &Ctx) {
                 }
             }
         }
-        ctx.run_prop_opts("release", ctx.cases(40, 1500), 150, case_strategy(true, builds.clone(), false, max_b), |c| env.attempt(c));
+        ctx.run_prop_opts("release", ctx.cases(120, 1500), 150, case_strategy(true, builds.clone(), false, max_b), |c| env.attempt(c));
         env.shrinking.set(false);
-        ctx.run_prop_opts("release-strace", ctx.cases(6, 120), 60, case_strategy(true, builds.clone(), true, 2), |c| env.attempt(c));
+        ctx.run_prop_opts("release-strace", ctx.cases(15, 120), 60, case_strategy(true, builds.clone(), true, 2), |c| env.attempt(c));
         env.shrinking.set(false);
     } else {
-        ctx.run_prop_opts("join", ctx.cases(40, 1500), 150, case_strategy(false, builds.clone(), false, max_b), |c| env.attempt(c));
+        ctx.run_prop_opts("join", ctx.cases(120, 1500), 150, case_strategy(false, builds.clone(), false, max_b), |c| env.attempt(c));
         env.shrinking.set(false);
-        ctx.run_prop_opts("join-strace", ctx.cases(5, 100), 60, case_strategy(false, builds.clone(), true, 2), |c| env.attempt(c));
+        ctx.run_prop_opts("join-strace", ctx.cases(12, 100), 60, case_strategy(false, builds.clone(), true, 2), |c| env.attempt(c));
         env.shrinking.set(false);
         // complete fault enumeration on the fixed batches: every stack mmap, every clone (x EAGAIN, ENOMEM)
         if let Some(case) = ctx.replay_case::<Case>("fault") {
